@@ -231,6 +231,10 @@ func (s *Stream) sendMessageWithEnd(ctx context.Context, data []byte, end byte) 
 	if s.gcm != nil && s.encrypted {
 		// Calculate the size overhead from encryption
 		encryptedSize := s.calculateEncryptedSize(len(data))
+		if encryptedSize > MaxMessageSize {
+			// The receiver bounds the on-wire frame length, which includes the IV and tag.
+			return fmt.Errorf("message too large: %d bytes encrypted (max %d)", encryptedSize, MaxMessageSize)
+		}
 
 		// Construct header with encrypted data length
 		finalHeader[0] = end // End flag
